@@ -14,11 +14,17 @@ EXTENDS Naturals, Sequences, FiniteSets, TLC, Json, Randomization
 
 CONSTANTS Templates, NFields, Phases, Mode, MaxSeq, Sample, JunkKinds
 
-Ops == {"drop", "null", "empty", "bogus", "wrongkind", "swap"}
+Ops == {"drop", "null", "empty", "bogus", "wrongkind", "swap", "zero"}     \* zero: the zero value of the field's kind
 Mut(f, op) == [f |-> f, op |-> op]
-Delivery(t, muts, j) == [tmpl |-> t, muts |-> muts, junk |-> j]
-Singles(t) == {Delivery(t, {Mut(f, op)}, 0) : f \in 1..NFields[t], op \in Ops}
+Delivery(t, muts, j) == [tmpl |-> t, muts |-> muts, junk |-> j, src |-> "own"]
+\* the messages that change the device tree are also delivered with another announced feature of the peer as their source
+TreeTemplates == {"discReply", "discNotifyAdd", "discNotifyRemove", "discNotifyFull"}
+AltSrc(ds) == {[d EXCEPT !.src = "alt"] : d \in ds}
+Singles0(t) == {Delivery(t, {Mut(f, op)}, 0) : f \in 1..NFields[t], op \in Ops}
+Singles(t) == Singles0(t) \cup (IF t \in TreeTemplates THEN AltSrc(Singles0(t) \cup {Delivery(t, {}, 0)}) ELSE {})
 Pairs(t) == {Delivery(t, {Mut(f1, o1), Mut(f2, o2)}, 0) : f1 \in 1..NFields[t], f2 \in 1..NFields[t], o1 \in Ops, o2 \in Ops}
+\* a seeded sample of Pairs(t), drawn constructively (the whole set has up to 125 x 125 x 49 elements per template)
+PairSample(t) == {Delivery(t, {Mut(RandomElement(1..NFields[t]), RandomElement(Ops)), Mut(RandomElement(1..NFields[t]), RandomElement(Ops))}, 0) : i \in 1..Sample}
 Valid(t) == Delivery(t, {}, 0)
 Junk(t) == {Delivery(t, {}, j) : j \in 1..JunkKinds}
 
@@ -29,7 +35,7 @@ StateTemplates == {"reply", "notifySel", "write", "writeDelete", "usecaseReply",
 FollowTemplates == {"read", "readSel", "reply", "notifySel", "write", "writeDelete", "usecaseReply", "subRequest", "bindDelete", "discNotifyRemove"}
 Cases ==
     CASE Mode = "single" -> {[phase |-> ph, seq |-> <<d>>] : ph \in Phases, d \in UNION {Singles(t) \cup Junk(t) \cup {Valid(t)} : t \in Templates}}
-      [] Mode = "pairs"  -> {[phase |-> ph, seq |-> <<d>>] : ph \in Phases, d \in UNION {RandomSubset(Sample, Pairs(t)) : t \in Templates}}
+      [] Mode = "pairs"  -> {[phase |-> ph, seq |-> <<d>>] : ph \in Phases, d \in UNION {PairSample(t) : t \in Templates}}
       [] Mode = "seq"    -> {[phase |-> ph, seq |-> <<d1, d2>>] : ph \in Phases,
                                 d1 \in RandomSubset(Sample, UNION {Singles(t) : t \in Templates}),
                                 d2 \in RandomSubset(4, UNION {Singles(t) \cup {Valid(t)} : t \in Templates})}
